@@ -66,6 +66,21 @@ def gen_cases(rng, n):
                     cuts = [i for i in range(1, m) if not ({x for x in cl[:i] if x != "nan"} & {x for x in cl[i:] if x != "nan"})]
                     pts = [0] + sorted(rng.sample(cuts, k=rng.randint(0, len(cuts)))) + [m]
                     c["chunks"] = [[b - a for a, b in zip(pts, pts[1:])]]
+                    if len(pts) > 2 and rng.random() < 0.5:
+                        # a missing label inside EVERY block (at a random position of the block), often with sort=False:
+                        # the -1 slots of several blocks must all disappear and take no real label with them
+                        labs, vals, sizes, off = [], [], [], 0
+                        for a, b in zip(pts, pts[1:]):
+                            bl, bv = c["labels"][a:b], c["vals"][a:b]
+                            k = rng.randint(0, len(bl))
+                            bl.insert(k, "nan")
+                            bv.insert(k, rng.choice([-2, 0, 3]))
+                            labs += bl
+                            vals += bv
+                            sizes.append(len(bl))
+                        c["labels"], c["vals"], c["chunks"] = labs, vals, [sizes]
+                        if rng.random() < 0.7:
+                            c["sort"] = False
             else:
                 c["chunks"] = [list(G.random_composition(rng, m, 4))]
             if c["sort"] is False and "expected" not in c:
